@@ -5,6 +5,7 @@ package tb
 import (
 	"encoding/json"
 	"fmt"
+	"math"
 	"os"
 	"path/filepath"
 	"sort"
@@ -167,6 +168,32 @@ func c20Threads() []c20Thread {
 				return
 			}
 			_ = m
+		}},
+		{"X refused writes (new edge without node type, self edge, NaN)", func(inst *sh.Inst, nc *nats.Conn, rec *c20Rec, tol bool) {
+			// requests the store must refuse (C05); a refusal must not disturb the clients that run next to it
+			reqs := []struct {
+				what string
+				send func() error
+			}{
+				{"new edge Q below N without node type", func() error {
+					return client.SendEdgePoints(nc, "Q", "N", data.Points{{Type: data.PointTypeTombstone, Value: 0, Time: c20ts(50), Origin: "x"}}, true)
+				}},
+				{"self edge on N", func() error {
+					return client.SendEdgePoints(nc, "N", "N", data.Points{{Type: data.PointTypeTombstone, Value: 0, Time: c20ts(51), Origin: "x"}, {Type: data.PointTypeNodeType, Text: "vtest"}}, true)
+				}},
+				{"NaN node point on N", func() error {
+					return client.SendNodePoints(nc, "N", data.Points{{Type: "nanv", Value: math.NaN(), Time: c20ts(52), Origin: "x"}}, true)
+				}},
+			}
+			for _, q := range reqs {
+				err := q.send()
+				if err == nil && !tol {
+					rec.fail("refused-request-accepted", "X: "+q.what+" was accepted")
+				}
+				if err != nil && (strings.Contains(err.Error(), "timeout") || strings.Contains(err.Error(), "no responders")) && !tol {
+					rec.fail("request-failed/refused-write", "X: "+q.what+" was not answered: "+err.Error())
+				}
+			}
 		}},
 	}
 }
@@ -369,13 +396,13 @@ func TestC20(t *testing.T) {
 		if vgate.Calls.Load() < 0 {
 			t.Fatal("unreachable")
 		}
-		triples := [][]int{{0, 1, 2}, {0, 1, 3}, {0, 2, 3}, {1, 2, 3}, {0, 3, 4}, {2, 3, 4}}
+		triples := [][]int{{0, 1, 2}, {0, 1, 3}, {0, 2, 3}, {1, 2, 3}, {0, 3, 4}, {2, 3, 4}, {0, 1, 5}, {0, 2, 5}}
 		bound := 2
 		if thorough() {
 			bound = 3
 			triples = append(triples, []int{0, 1, 4}, []int{0, 2, 4}, []int{1, 3, 4}, []int{0, 1, 2, 3})
 		}
-		rule := "threads = concurrent clients of one real store: W1 node-point writer (write, read-own-write, write), W2 edge-point writer, R reader (monotonic reads), V admin.storeVerify%s; all triples; scheduling points = every message delivery, every SQL operation and every writeLock.Lock in store/sqlite.go; all schedules with at most %d preemptions; oracles: every request answered (no deadlock), acknowledged writes visible, reads never go back, final content = newest acknowledged writes, hashes consistent, storeMaint has nothing to repair"
+		rule := "threads = concurrent clients of one real store: W1 node-point writer (write, read-own-write, write), W2 edge-point writer, R reader (monotonic reads), V admin.storeVerify, X a client whose requests must be refused (new edge without node type, self edge, NaN) next to W1 and W2 / R%s; all triples; scheduling points = every message delivery, every SQL operation and every writeLock.Lock in store/sqlite.go; all schedules with at most %d preemptions; oracles: every request answered (no deadlock), acknowledged writes visible, reads never go back, final content = newest acknowledged writes, hashes consistent, storeMaint has nothing to repair"
 		extra := ", M admin.storeMaint (with V and a writer / reader)"
 		if thorough() {
 			extra = ", M admin.storeMaint, more triples with M, and W1 W2 R V together"
